@@ -50,6 +50,20 @@ def corpus(rng, tier, wd, run):
     # implementation reports, it must be the same one under every hash seed
     for _ in range(160 if tier == "quick" else 4000):
         srcs.append(("same-kind", validate.render(same_kind_violations(rng), rng)[0]))
+    # scale: tagged unions (lib/scale.py) of 40-120 small grammars - hundreds of states and table cells, and, when several
+    # components have conflicts, many conflicts in different states of which always the same one must be reported
+    import scale
+    u2 = gs
+    for n in ((40, 80) if tier == "quick" else (40, 80, 120, 120)):
+        comps = [rng.choice(u2) for _ in range(n)]
+        U, _ = scale.union(comps)
+        srcs.append(("scale-mixed", grammar.render(U, grammar.present(U, rng))))
+    quick_ok = common.kv("gen", [{"id": i, "src": grammar.render(G, grammar.present(G, rng)), "want": []} for i, G in enumerate(u2[:1500])])
+    lalr = [G for G, o in zip(u2[:1500], quick_ok) if o["res"]["t"] == "ok"]
+    if len(lalr) >= 20:
+        for n in ((60,) if tier == "quick" else (60, 150)):
+            U, _ = scale.union([rng.choice(lalr) for _ in range(n)])
+            srcs.append(("scale-accepted", grammar.render(U, grammar.present(U, rng))))
     # grammars with several conflicts in different states: the bracket family of the pipeline engine
     for _ in range(150 if tier == "quick" else 2000):
         G = pipeline.bracket_grammar(rng)
